@@ -411,3 +411,149 @@ func mixedFlagPhase() func(R *res.Result) {
 	}
 	return done
 }
+
+// failSuffixKV makes every transaction that creates the suffix key of one dc-location fail (an etcd write error during a join).
+type failSuffixKV struct {
+	clientv3.KV
+	dc string
+}
+
+type failSuffixTxn struct {
+	clientv3.Txn
+	fail bool
+	dc   string
+}
+
+func (k *failSuffixKV) Txn(ctx context.Context) clientv3.Txn {
+	return &failSuffixTxn{Txn: k.KV.Txn(ctx), dc: k.dc}
+}
+func (t *failSuffixTxn) If(cs ...clientv3.Cmp) clientv3.Txn { t.Txn = t.Txn.If(cs...); return t }
+func (t *failSuffixTxn) Then(ops ...clientv3.Op) clientv3.Txn {
+	for _, o := range ops {
+		if o.IsPut() && strings.HasSuffix(string(o.KeyBytes()), "local-tso-suffix/"+t.dc) {
+			t.fail = true
+		}
+	}
+	t.Txn = t.Txn.Then(ops...)
+	return t
+}
+func (t *failSuffixTxn) Else(ops ...clientv3.Op) clientv3.Txn { t.Txn = t.Txn.Else(ops...); return t }
+func (t *failSuffixTxn) Commit() (*clientv3.TxnResponse, error) {
+	if t.fail {
+		return nil, status.Error(codes.Unavailable, "verif: injected failure of the suffix write")
+	}
+	return t.Txn.Commit()
+}
+
+// firstDCPhase (background, its own real server started WITHOUT any dc-location): Global timestamps are handed out on
+// the plain path and the Global TSO is reset one hour ahead; then the first dc-location joins: its first Local
+// timestamp has to be above the Global timestamps returned before. Then a dc-location joins whose suffix cannot be
+// written: as long as it has no persisted suffix its allocator must not hand out timestamps.
+func firstDCPhase() func(R *res.Result) {
+	type viol struct {
+		sig, desc string
+		data      interface{}
+	}
+	var viols []viol
+	var notes []string
+	counts := map[string]int{}
+	done := func(R *res.Result) {
+		for _, v := range viols {
+			R.Violate(v.sig, v.desc, v.data)
+		}
+		R.Notes = append(R.Notes, notes...)
+		for k, n := range counts {
+			R.CountN(k, n)
+		}
+	}
+	c, err := pdcluster.Start(1, func(i int, cfg *config.Config) {
+		cfg.EnableLocalTSO = true
+		cfg.TSOUpdatePhysicalInterval = typeutil.NewDuration(50 * time.Millisecond)
+	})
+	if err != nil {
+		notes = append(notes, "first-dc phase skipped: "+err.Error())
+		return done
+	}
+	defer c.Close()
+	if c.WaitLeader(60*time.Second) == nil {
+		notes = append(notes, "first-dc phase skipped: no PD leader")
+		return done
+	}
+	s := c.Nodes[0].S
+	am := s.GetTSOAllocatorManager()
+	var g pdpb.Timestamp
+	ok := false
+	for deadline := time.Now().Add(20 * time.Second); time.Now().Before(deadline); time.Sleep(50 * time.Millisecond) {
+		if _, err := am.HandleTSORequest(tso.GlobalDCLocation, 1); err == nil {
+			ok = true
+			break
+		}
+	}
+	if !ok {
+		notes = append(notes, "first-dc phase skipped: no Global timestamp")
+		return done
+	}
+	ga, err := am.GetAllocator(tso.GlobalDCLocation)
+	if err != nil {
+		return done
+	}
+	if err := ga.SetTSO(compose(time.Now().UnixNano()/1e6+3600*1000, 0)); err != nil {
+		notes = append(notes, "first-dc phase skipped: reset refused: "+err.Error())
+		return done
+	}
+	for k := 0; k < 3; k++ {
+		if t, err := am.HandleTSORequest(tso.GlobalDCLocation, 1); err == nil {
+			g = t
+		}
+	}
+	if g.Physical == 0 {
+		return done
+	}
+	if !dclife.Join(s, "dc-first", 616161, 30*time.Second) {
+		notes = append(notes, "first-dc phase incomplete: dc-first was not served within 30 s")
+		return done
+	}
+	counts["first-dc:probed"]++
+	if l, err := am.HandleTSORequest("dc-first", 1); err == nil && (l.Physical < g.Physical || (l.Physical == g.Physical && l.Logical <= g.Logical)) {
+		viols = append(viols, viol{"C05:local-not-above-earlier-global:first-dc-location-of-the-cluster",
+			fmt.Sprintf("a cluster without dc-locations returned the Global timestamp (%d,%d) (after a reset one hour ahead); then the first dc-location joined and its first Local timestamp is (%d,%d)", g.Physical, g.Logical, l.Physical, l.Logical),
+			map[string]interface{}{"global": []int64{g.Physical, g.Logical}, "local": []int64{l.Physical, l.Logical}}})
+	}
+	// a dc-location whose suffix cannot be written
+	orig := s.GetClient().KV
+	s.GetClient().KV = &failSuffixKV{KV: orig, dc: "dc-nosuffix"}
+	defer func() { s.GetClient().KV = orig }()
+	ctx, cancel := context.WithTimeout(context.Background(), 5*time.Second)
+	_, err = orig.Put(ctx, s.GetMember().GetDCLocationPath(626262), "dc-nosuffix")
+	cancel()
+	if err != nil {
+		return done
+	}
+	counts["no-suffix:probed"]++
+	for deadline := time.Now().Add(3 * time.Second); time.Now().Before(deadline); time.Sleep(50 * time.Millisecond) {
+		am.ClusterDCLocationChecker()
+		if !dclife.Serves(am, "dc-nosuffix") {
+			continue
+		}
+		t, err := am.HandleTSORequest("dc-nosuffix", 1)
+		if err != nil {
+			continue
+		}
+		r, _ := orig.Get(context.Background(), fmt.Sprintf("/pd/%d", s.ClusterID()), clientv3.WithPrefix(), clientv3.WithKeysOnly())
+		stored := false
+		if r != nil {
+			for _, kv := range r.Kvs {
+				if strings.HasSuffix(string(kv.Key), "local-tso-suffix/dc-nosuffix") {
+					stored = true
+				}
+			}
+		}
+		if !stored {
+			viols = append(viols, viol{"C05:allocator-serving-without-a-persisted-suffix",
+				fmt.Sprintf("the suffix of dc-nosuffix could not be written (etcd error at every attempt); its Local allocator serves all the same: (%d,%d), suffix width %d, suffix known to the PD leader %d", t.Physical, t.Logical, t.SuffixBits, am.GetClusterDCLocations()["dc-nosuffix"].Suffix),
+				map[string]interface{}{"timestamp": []int64{t.Physical, t.Logical}, "suffix_bits": t.SuffixBits, "suffix": am.GetClusterDCLocations()["dc-nosuffix"].Suffix}})
+		}
+		break
+	}
+	return done
+}
